@@ -36,7 +36,8 @@ theorem foldl_masked_eq (anyNz : Bool) (l : List (ℚ × V)) (acc : V) :
 theorem maskedSum_eq_wsum (coeffs : List ℚ) (ks : List V) :
     maskedSum (modOps (V := V)) coeffs ks = wsum (modOps (V := V)) coeffs ks := by
   unfold maskedSum wsum
-  exact foldl_masked_eq _ _ _
+  have := foldl_masked_eq (V := V) true (List.zip coeffs ks) (modOps (V := V)).zero
+  simpa using this
 
 /-- the weighted sum only looks at stages whose coefficient is non-zero -/
 theorem wsum_congr : ∀ (coeffs : List ℚ) (ks ks' : List V) (acc : V), ks.length = ks'.length →
